@@ -61,6 +61,14 @@ def run_behaviour(meta, steps, catalogue, check_setup=True):
     for s, phase in all_steps:
         if phase == 'step':
             idx += 1
+        if 'p' not in s:
+            # a step of the witness prefix: executed, not compared here (it is the last, compared, step of another witness)
+            try:
+                sess.step(resolve(s, catalogue))
+            except Exception:
+                return {'kind': 'harness', 'phase': phase, 'step': idx, 'why': traceback.format_exc()[-1500:]}
+            dev_before[s['x']] = s.get('dev', [])
+            continue
         if s['p'].get('ux'):
             return None          # the model says this step cannot be predicted (HPACK contexts out of step): nothing further is judged
         s2 = resolve(s, catalogue)
@@ -68,6 +76,11 @@ def run_behaviour(meta, steps, catalogue, check_setup=True):
             obs = sess.step(s2)
         except Exception as e:       # harness failure: reported, never swallowed
             return {'kind': 'harness', 'phase': phase, 'step': idx, 'why': traceback.format_exc()[-1500:]}
+        chunked_error = sess.chunk_rng is not None and s['a'] in ('recv', 'dlv') and obs['r']['c'] != 'ok'
+        if chunked_error:
+            # fed in pieces, the input stops at the piece that raised: what is left in the input buffer is not comparable with
+            # the one-call prediction (C21 compares result, events and output up to the error), and nothing later is either
+            obs = dict(obs, z=dict(obs['z'], pend='unreadable', hb='unreadable'))
         d = compare(s['p'], obs)
         if d:
             return {'kind': 'diverged', 'phase': phase, 'step': idx, 'fields': d,
@@ -76,6 +89,8 @@ def run_behaviour(meta, steps, catalogue, check_setup=True):
                     'observed': {k.split('.')[0]: obs.get(k.split('.')[0]) for k in d},
                     'dev': s.get('dev', []), 'dev_before': dev_before.get(s['x'], [])}
         dev_before[s['x']] = s.get('dev', [])
+        if chunked_error:
+            return None
     return None
 
 
